@@ -63,24 +63,51 @@ func flattenSum(v ssa.Value, out *[]ssa.Value, depth int) {
 }
 
 func runProg1(m *Model, r *RuleResult) {
-	for _, f := range m.Src {
-		self := staticCalls(f, func(c *ssa.Function) bool { return c == f })
-		if len(self) == 0 {
-			continue
+	isBoolPhi := func(v ssa.Value) *ssa.Phi {
+		if u, ok := v.(*ssa.UnOp); ok && u.Op == token.NOT {
+			v = u.X
 		}
-		for _, s := range self {
-			// recursion guarded by a boolean flag (a phi over boolean constants)
-			var flag *ssa.Phi
+		p, ok := v.(*ssa.Phi)
+		if !ok {
+			return nil
+		}
+		if b, ok := p.Type().Underlying().(*types.Basic); !ok || b.Kind() != types.Bool {
+			return nil
+		}
+		return p
+	}
+	for _, f := range m.Src {
+		// repetition guarded by a boolean flag (a phi over boolean constants): a recursive call taken when the flag is set,
+		// or - the iterative spelling of the same fix-point - a loop that is left when the flag is clear
+		type rep struct {
+			flag *ssa.Phi
+			body map[*ssa.BasicBlock]bool // nil: the whole function (recursion)
+		}
+		var reps []rep
+		for _, s := range staticCalls(f, func(c *ssa.Function) bool { return c == f }) {
 			for _, d := range controlDeps(s.Block()) {
 				if p, ok := d.If.Cond.(*ssa.Phi); ok && d.Branch == 0 {
 					if b, ok := p.Type().Underlying().(*types.Basic); ok && b.Kind() == types.Bool {
-						flag = p
+						reps = append(reps, rep{p, nil})
 					}
 				}
 			}
-			if flag == nil {
-				continue
+		}
+		if shortPkg(pkgPathOf(f)) == "internal/phase4" {
+			for _, l := range naturalLoops(f) {
+				for b := range l.Body {
+					iff, ok := b.Instrs[len(b.Instrs)-1].(*ssa.If)
+					if !ok || (l.Body[b.Succs[0]] && l.Body[b.Succs[1]]) {
+						continue
+					}
+					if p := isBoolPhi(iff.Cond); p != nil && l.Body[p.Block()] {
+						reps = append(reps, rep{p, l.Body})
+					}
+				}
 			}
+		}
+		for _, rp := range reps {
+			flag := rp.flag
 			ctl := m.FuncIsPosctl(f)
 			// blocks that set the flag to true
 			var setters []*ssa.BasicBlock
@@ -94,7 +121,8 @@ func runProg1(m *Model, r *RuleResult) {
 				for i, e := range p.Edges {
 					switch x := e.(type) {
 					case *ssa.Const:
-						if isConstBool(x, true) {
+						// (for the loop spelling: an initial `true` that enters the loop from outside is not a setter)
+						if isConstBool(x, true) && (rp.body == nil || rp.body[p.Block().Preds[i]]) {
 							setters = append(setters, p.Block().Preds[i])
 						}
 					case *ssa.Phi:
